@@ -152,6 +152,19 @@ def run(ctx):
                         ctx.ob("R09.2", "%s.some" % name.split("::")[-1], dominated_by_edges(f, bb, edges) and payload == want, f.loc(bb, si),
                                "%s returns Some(%s); must be the %s payload under the %s edge" % (name, M.term_str(payload), var, var))
 
+    # ... and conversely: in that state the projection *is* Some (a known status / a live pid is never hidden), in every other state None
+    for name, var in (("popen::Popen::pid", "Running"), ("popen::Popen::exit_status", "Finished")):
+        f = prog.fn(name)
+        if f is None:
+            continue
+        for sname, sval in CHILD_STATE.items():
+            ex = M.Explore(f, assume={self_field("child_state"): sval})
+            got = sorted({s_["r"]["variant"] for b_ in ex.blocks for s_ in f.blocks[b_]["stmts"]
+                          if s_["k"] == "assign" and s_["p"]["l"] == 0 and not s_["p"]["proj"] and s_["r"]["k"] == "agg" and s_["r"].get("adt") == "std::option::Option"})
+            want = ["Some"] if sname == var else ["None"]
+            ctx.ob("R09.2", "%s[%s]=%s" % (name.split("::")[-1], sname, want[0]), got == want and bool(ex.returns()), f.loc(0),
+                   "under child_state=%s %s must return %s (found %s)" % (sname, name, want[0], got))
+
     # ---- R09.3 status recorded only for this child; ECHILD -> Undetermined + Ok ----
     T = M.Terms(wp)
     fin_stores = [(bb, si, s) for (fn, bb, si, s) in stores if fn.path == wp.path]
